@@ -96,7 +96,7 @@ class CallsMixin:
         if v.k in ('int', 'bool'):
             return ARR((), 'i', taint=v.taint)
         if v.k == 'float':
-            return ARR((), 'f', taint=v.taint, lg=v.lg, unit=v.unit,
+            return ARR((), 'f', doc=v.doc, taint=v.taint, lg=v.lg, unit=v.unit,
                        deg=v.deg)
         if v.k in ('list', 'tuple', 'iter'):
             return self.array_from_seq(v)
@@ -159,6 +159,21 @@ class CallsMixin:
         h = getattr(self, 'x_' + name.replace('.', '_'), None)
         if h is None and name.startswith('numpy.') and name.count('.') == 1:
             h = getattr(self, 'n_' + short, None)
+        # SciPy's overwrite_a / overwrite_b let LAPACK destroy the first /
+        # second operand: an in-place write to whatever storage it shares
+        if name.startswith('scipy.') and short not in ('lstsq',):
+            for flag, i_, alt in (('overwrite_a', 0, 'a'),
+                                  ('overwrite_b', 1, 'b')):
+                fv = kw.get(flag)
+                if fv is not None and I.truth(fv) is not False:
+                    raw = kw.get(alt) if alt in kw else (
+                        pos[i_] if i_ < len(pos) else None)
+                    if raw is not None:
+                        I.effect('array-write', raw, node)
+                        self.site('A-overwrite', node, 'ok',
+                                  '%s operand origins %s' % (
+                                      flag, sorted(map(repr, raw.org))),
+                                  construct='%s=True' % flag)
         if h is not None:
             return h(pos, kw, node, env)
         if name in SHAPE_PRESERVING:
@@ -205,7 +220,8 @@ class CallsMixin:
         r.note = 'nonzero'
         r.src = 'ones'
         r.cnt = (ONE, ONE)
-        if r.dims is not None and len(r.dims) == 1 and r.dims[0] is not None \
+        if r.dt == 'i' and r.dims is not None and len(r.dims) == 1 and \
+                r.dims[0] is not None \
                 and r.dims[0].as_int() is not None and \
                 0 <= r.dims[0].as_int() <= 16:
             r.items = [INT(1) for _ in range(r.dims[0].as_int())]
@@ -219,7 +235,12 @@ class CallsMixin:
     def n_full(self, pos, kw, node, env):
         sh = self.shape_arg(self.kwarg(pos, kw, 0, 'shape'))
         fv = self.kwarg(pos, kw, 1, 'fill_value')
-        r = ARR(sh, 'f' if fv is None or fv.k != 'int' else 'i')
+        dtv = self.kwarg(pos, kw, 2, 'dtype')
+        if dtv is not None and dtv.k != 'none':
+            r = ARR(sh, self.dtype_arg(dtv, 'f'))
+        else:
+            # without dtype= the array takes the kind of the fill value
+            r = ARR(sh, 'f' if fv is None or fv.k != 'int' else 'i')
         if fv is not None:
             r.taint = fv.taint
         return r
@@ -283,7 +304,13 @@ class CallsMixin:
         if dt == 'o':
             return ARR(None, 'o')
         if dt is not None:
+            if dt == 'i' and a.doc:
+                self.site('S-kind', node, 'violation',
+                          'the value of parameter %s, documented as float, is '
+                          'converted to an integer array: fractional values '
+                          'are truncated silently' % a.doc.split(':')[-1])
             r.dt = dt
+            r.doc = None
             if dt != 'i' and r.items is not None and dt != 'f':
                 r.items = None
         if view and v.k in ('arr', 'top'):
@@ -299,6 +326,24 @@ class CallsMixin:
         return self.n_array(pos, kw, node, env, view=True)
 
     n_asanyarray = n_asarray
+
+    def n_atleast_2d(self, pos, kw, node, env):
+        a = self.as_arr(pos[0]) if pos else ARR(None)
+        if a.dims is None:
+            return ARR(None, a.dt, org=a.org, taint=a.taint)
+        if len(a.dims) >= 2:
+            return a
+        dims = (ONE, ONE) if len(a.dims) == 0 else (ONE, a.dims[0])
+        r = a.copy(dims=dims, lay=None, delta=None, orth=None)
+        if a.items is not None:
+            r.items = None
+        return r
+
+    def n_atleast_1d(self, pos, kw, node, env):
+        a = self.as_arr(pos[0]) if pos else ARR(None)
+        if a.dims is not None and len(a.dims) == 0:
+            return a.copy(dims=(ONE,))
+        return a
 
     def n_copy(self, pos, kw, node, env):
         v = pos[0] if pos else TOP()
@@ -913,7 +958,12 @@ class CallsMixin:
         return self._concat(pos[0] if pos else TOP(), 'h', node, 'hstack')
 
     def n_vstack(self, pos, kw, node, env):
-        return self._concat(pos[0] if pos else TOP(), 'v', node, 'vstack')
+        r = self._concat(pos[0] if pos else TOP(), 'v', node, 'vstack')
+        seq = pos[0] if pos else None
+        if r.k == 'arr' and seq is not None and seq.items and \
+                len(seq.items) > 1 and r.note is None:
+            r.note = 'stacked'      # rows of several blocks: may repeat
+        return r
 
     def n_stack(self, pos, kw, node, env):
         return self.as_arr(pos[0]) if pos else ARR(None)
@@ -1156,6 +1206,10 @@ class CallsMixin:
                 self.log_site(a, node, env)
         elif short == 'cumsum':
             r.orth = None
+            if a.dt == 'f' and a.nonneg:
+                # prefix sums of non-negative terms (see G-cancel)
+                r.src = ('cumsum', id(r))
+                r.nonneg = True
             if a.items is not None and all(x.p is not None for x in a.items):
                 acc = Poly.const(0)
                 its = []
@@ -1276,8 +1330,8 @@ class CallsMixin:
         axv = kw.get('axis')
         n = self.I.fresh('uniq', node)
         if axv is not None and a.dims is not None and len(a.dims) == 2:
-            return ARR((n, a.dims[1]), a.dt)
-        return ARR((n,), a.dt)
+            return ARR((n, a.dims[1]), a.dt, note='distinct')
+        return ARR((n,), a.dt, note='distinct')
 
     def n_repeat(self, pos, kw, node, env):
         a = self.as_arr(pos[0])
